@@ -1,0 +1,13 @@
+// Copyright 2025 The Go MCP SDK Authors. All rights reserved.
+// Use of this source code is governed by an MIT-style
+// license that can be found in the LICENSE file.
+
+//go:build !verif
+
+package mcp
+
+import "time"
+
+// verifTimerCreated is a hook for the runtime monitors kept outside this
+// repository; it does nothing unless the package is built with the "verif" tag.
+func verifTimerCreated(owner any, t *time.Timer) {}
